@@ -26,12 +26,12 @@ K = (
 
 def c15_shape(shape: int, n1: int, n2: int, a0: int, a1: int, b0: int, b1: int) -> bool:
     """
-    vpre: (a0 == 9 or a0 == 10 or 32 <= a0 <= 55295 or 57344 <= a0 <= 65533) and (a1 == 9 or a1 == 10 or 32 <= a1 <= 55295 or 57344 <= a1 <= 65533)
-    vpre: (b0 == 9 or b0 == 10 or 32 <= b0 <= 55295 or 57344 <= b0 <= 65533) and (b1 == 9 or b1 == 10 or 32 <= b1 <= 55295 or 57344 <= b1 <= 65533)
+    vpre: (a0 == 9 or a0 == 10 or 32 <= a0 <= 126 or a0 == 8232) and (a1 == 9 or a1 == 10 or 32 <= a1 <= 126 or a1 == 8232)
+    vpre: (b0 == 9 or b0 == 10 or 32 <= b0 <= 126 or b0 == 8232) and (b1 == 9 or b1 == 10 or 32 <= b1 <= 126 or b1 == 8232)
     vpost: _ == True
     """
-    t1 = S(*((a0, a1)[:n1]))
-    t2 = S(*((b0, b1)[:n2]))
+    t1 = S(*((a0, a1)[:n1])) if n1 else "x"
+    t2 = S(*((b0, b1)[:n2])) if n2 else "y"
     n = SH.build(shape, t1, t2)
     compact = n.toxml()
     pretty = n.toprettyxml(indent="  ")
@@ -44,11 +44,11 @@ specialise(
     "C15",
     "a.shapes",
     c15_shape,
-    {"shape": list(range(1, SH.N_SHAPES)), "n1": [1], "n2": [1]},
-    timeout=400,
+    {"shape": list(range(1, SH.N_SHAPES)), "n1": [1], "n2": [0]},
+    timeout=300,
     kernel=K,
     shims=("S2", "S5"),
-    symbolic="two text/attribute segments of 1 symbolic code point each over XML Char (BMP, incl. space, TAB, LF)",
+    symbolic="first text/attribute segment = 1 symbolic character over printable ASCII + TAB + LF + U+2028 (second segment fixed)",
     bounds="shape fixed per instance (text-only, element-only, text+output+text, output first/last, attributes, nested mixed, html skeleton, two outputs)",
     weight=60,
 )
@@ -56,12 +56,12 @@ specialise(
     "C15",
     "a.shapes",
     c15_shape,
-    {"shape": list(range(1, SH.N_SHAPES)), "n1": [2], "n2": [0, 2]},
+    {"shape": list(range(1, SH.N_SHAPES)), "n1": [1, 2], "n2": [1]},
     tiers=("thorough",),
-    timeout=1200,
+    timeout=1800,
     kernel=K,
     shims=("S2", "S5"),
-    symbolic="two text/attribute segments of up to 2 symbolic code points each over XML Char (BMP, incl. space, TAB, LF)",
+    symbolic="two text/attribute segments of up to 2 symbolic characters (printable ASCII + TAB + LF + U+2028)",
     bounds="shape and segment lengths fixed per instance",
     weight=500,
 )
